@@ -8,6 +8,7 @@ same kind of event log and share the very same item and exception objects.
 """
 
 import functools
+import weakref
 
 from .loop import PAUSE, SLEEP
 
@@ -182,9 +183,10 @@ LOGGING_FLAVOURS = ("getitem", "sync_iter") + ASYNC_FLAVOURS
 
 
 class SrcPlan:
-    __slots__ = ("name", "items", "flavour", "suspend", "aclose_suspends")
+    __slots__ = ("name", "items", "flavour", "suspend", "aclose_suspends", "fresh")
 
-    def __init__(self, name, items, flavour="list", suspend=(), aclose_suspends=0):
+    def __init__(self, name, items, flavour="list", suspend=(), aclose_suspends=0, fresh=False):
+        self.fresh = fresh  # instantiate private copies of the items and track them by weakref
         self.name = name
         self.items = items
         self.flavour = flavour
@@ -207,14 +209,19 @@ class Source:
     __slots__ = (
         "world", "plan", "name", "items", "cursor", "n_pulls", "exhausted", "closed",
         "n_aclose", "finalised", "in_flight", "overlaps", "pulls_after_close", "failed",
-        "obj", "agen", "started", "delivered", "n_iters", "track_alive",
+        "obj", "agen", "started", "delivered", "n_iters", "refs", "killed",
     )
 
     def __init__(self, world, plan):
         self.world = world
         self.plan = plan
         self.name = plan.name
-        self.items = plan.items
+        if plan.fresh:
+            self.items = [Item(i.key, i.uid, i.truth) for i in plan.items]
+            self.refs = []
+        else:
+            self.items = plan.items
+            self.refs = None
         self.cursor = 0
         self.n_pulls = 0
         self.exhausted = False
@@ -230,6 +237,7 @@ class Source:
         self.started = False
         self.delivered = 0
         self.n_iters = 0
+        self.killed = False  # an exception thrown in (cancellation) ended the async generator
         world.sources[plan.name] = self
 
     # -- shared core of one pull; returns the item or raises ------------------------
@@ -265,6 +273,11 @@ class Source:
         self.cursor = i + 1
         self.delivered += 1
         world.log.append(("item", self.name, i))
+        if self.refs is not None:
+            item = self.items[i]
+            self.items[i] = None  # the source itself keeps nothing alive
+            self.refs.append(weakref.ref(item))
+            return item
         return self.items[i]
 
     @property
@@ -371,8 +384,15 @@ async def _agen_stream(src):
                 src.in_flight -= 1
             if got is _EOS:
                 return
-            yield got
+            # hand the item over without keeping it in this frame while suspended at the yield
+            hold = [got]
             del got
+            yield hold.pop()
+    except GeneratorExit:
+        raise
+    except BaseException:
+        src.killed = True
+        raise
     finally:
         src.finalised = True
         world.log.append(("fin", src.name))
